@@ -107,6 +107,14 @@ Theorem interp_descending : forall xp rows x np, sdesc xp -> (2 <= length xp)%na
   interp_axis1 xp rows x None false np = interp_axis1 (rev xp) (rev rows) x None false np.
 Proof. exact interp_descending. Qed.
 
+(* ... and in nearest mode as well, except at exact mid points (np.rint sends the tie to the first
+   node in storage order, so the two sides legitimately differ there) *)
+Theorem interp_descending_nearest : forall xp rows x np, sdesc xp -> (2 <= length xp)%nat ->
+  length rows = length xp ->
+  (forall i, (i + 1 < length xp)%nat -> x <> (rnth xp i + rnth xp (i + 1)) / 2) ->
+  interp_axis1 xp rows x None true np = interp_axis1 (rev xp) (rev rows) x None true np.
+Proof. exact interp_descending_nearest. Qed.
+
 (* variables that do not carry the coordinate pass through unchanged; the others are
    interpolated target by target *)
 Theorem passthrough : forall xp v xs period nearest np, v_has_coord v = false ->
